@@ -136,6 +136,7 @@ fn nested_doc_for(v: &[Tri]) -> Yaml {
 pub fn run_c06(ctx: &mut Ctx, _known: &Known) {
     ctx.exhaustive = true;
     c06_same_field(ctx);
+    c06_rows_same_field(ctx);
     let masks = vec![0u64, 15];
     for k in 1..=4usize {
         let vs = vectors(k);
@@ -382,6 +383,45 @@ fn c06_same_field(ctx: &mut Ctx) {
     }
 }
 
+/// A conjunction whose two operands read ONE field through two key forms, as a row of a sequence of
+/// mappings (what the matrix pass turns into a table): true iff both operands are true, for every
+/// operand vector, both orders, every mask.
+fn c06_rows_same_field(ctx: &mut Ctx) {
+    let doc = map1("f", Yaml::Number(7u64.into()));
+    let plain = |t: Tri| -> Yaml { match t { Tri::T => Yaml::Number(7u64.into()), Tri::F => Yaml::Number(8u64.into()), Tri::M => ys("5*") } };
+    let cast = |t: Tri| -> Yaml { match t { Tri::T => ys("7*"), _ => ys("5*") } };
+    let masks = vec![0u64, 8, 15, 10, 14, 12];
+    for a in [Tri::T, Tri::F, Tri::M] {
+        for b in [Tri::T, Tri::F] {
+            for swapped in [false, true] {
+                for extra in 0..3 {
+                    let e1 = ("f".to_string(), plain(a));
+                    let e2 = ("str(f)".to_string(), cast(b));
+                    let row = if swapped { mapn(vec![e2.clone(), e1.clone()]) } else { mapn(vec![e1.clone(), e2.clone()]) };
+                    let mut rows = vec![row];
+                    if extra >= 1 { rows.push(map1("f", ys("zz"))); }
+                    if extra >= 2 { rows.insert(0, mapn(vec![("g".into(), ys("q")), ("f".into(), Yaml::Number(9u64.into()))])); }
+                    let c = case(vec![("X".into(), Yaml::Sequence(rows)), ("condition".into(), ys("X"))], vec![doc.clone()], masks.clone());
+                    let (ex, parsed) = run_rule_case(ctx, &c, false);
+                    let p = match parsed {
+                        Some(p) if p.load == "ok" => p,
+                        _ => continue,
+                    };
+                    ctx.nontrivial.insert(hash_str(&ex.line));
+                    let want_true = a == Tri::T && b == Tri::T;
+                    for m in &p.masks {
+                        let got = m.res[0].0.as_str();
+                        if (got == "T") != want_true {
+                            ctx.violation("oracle", &format!("a row whose two operands read one field ({:?} and {:?}, mask {}): engine gives {}, the conjunction is {}", a, b, m.mask, got, if want_true { "true" } else { "not true" }), &ex, &rule_yaml(&c), true);
+                            break;
+                        }
+                    }
+                }
+            }
+        }
+    }
+}
+
 fn with_cond(ids: &[(String, Yaml)], cond: &str) -> Vec<(String, Yaml)> {
     let mut d = ids.to_vec();
     d.push(("condition".into(), ys(cond)));
@@ -465,7 +505,9 @@ pub fn run_c05(ctx: &mut Ctx, _known: &Known) {
     // identifiers: one-field predicates; names include words that begin with keyword letters
     let names = ["A", "B", "android", "order", "nothing", "allow", "offline", "note", "andy", "orb", "ofx", "allx", "inty", "strx", "fltx", "not_a", "or_b", "and.c",
         // keywords are lower case only: these are identifiers
-        "OR", "AND", "Not", "NOT", "Or", "aNd", "ALL", "Of", "INT"];
+        "OR", "AND", "Not", "NOT", "Or", "aNd", "ALL", "Of", "INT",
+        // letters and digits outside ASCII continue an identifier (they cannot start one)
+        "andré", "orä", "notß", "all日", "ofж", "Aé1", "x٣"];
     let mut ids: Vec<(String, Yaml)> = vec![];
     for (i, n) in names.iter().enumerate() {
         ids.push((n.to_string(), map1(&format!("f{}", i % 3), ys("x"))));
@@ -1354,6 +1396,80 @@ pub fn run_c09(ctx: &mut Ctx, _known: &Known) {
             }
         }
     }
+    // (2n) the same comparisons under `not`, with the literal on either side, with NEGATIVE literals
+    //      (if the grammar accepts one it must mean that number), plain and optimised: a cast that
+    //      cannot convert makes the comparison FALSE (so its negation holds), an absent field makes
+    //      it missing (so neither it nor its negation holds)
+    {
+        let mirror = |op: &str| -> &'static str { match op { ">" => "<", ">=" => "<=", "<" => ">", "<=" => ">=", _ => "==" } };
+        let int_cast = |fv: &Yaml| -> Option<i128> {
+            match fv {
+                Yaml::Bool(b) => Some(*b as i128),
+                Yaml::Number(n) if n.is_u64() => { let u = n.as_u64().unwrap(); if u <= i64::MAX as u64 { Some(u as i128) } else { None } }
+                Yaml::Number(n) if n.is_i64() => Some(n.as_i64().unwrap() as i128),
+                Yaml::Number(n) => {
+                    let x = n.as_f64().unwrap().round();
+                    if x.is_finite() && x >= -9223372036854775808.0 && x < 9223372036854775808.0 { Some(x as i128) } else { None }
+                }
+                Yaml::String(s) => s.parse::<i64>().ok().map(|v| v as i128),
+                _ => None,
+            }
+        };
+        let flt_cast = |fv: &Yaml| -> Option<f64> {
+            match fv {
+                Yaml::Bool(b) => Some(if *b { 1.0 } else { 0.0 }),
+                Yaml::Number(n) if n.is_u64() => Some(n.as_u64().unwrap() as f64),
+                Yaml::Number(n) if n.is_i64() => Some(n.as_i64().unwrap() as f64),
+                Yaml::Number(n) => n.as_f64(),
+                Yaml::String(s) => s.parse::<f64>().ok(),
+                _ => None,
+            }
+        };
+        let nmasks = vec![0u64, 15, 2, 3];
+        for op in ["==", ">", ">=", "<", "<="] {
+            for (kind, c) in [("int", "5"), ("int", "0"), ("int", "-1"), ("int", "-5"), ("flt", "2.5"), ("flt", "1.0"), ("flt", "-1.5"), ("flt", "-0.5"), ("flt", "0.0")] {
+                for form in 0..4 {
+                    let cond = match form {
+                        0 => format!("{}(f) {} {}", kind, op, c),
+                        1 => format!("not ({}(f) {} {})", kind, op, c),
+                        2 => format!("{} {} {}(f)", c, mirror(op), kind),
+                        _ => format!("not {}(f) {} {}", kind, op, c),
+                    };
+                    if form == 0 && !c.starts_with('-') {
+                        continue; // block (2) above
+                    }
+                    let cs = case(vec![("A".into(), map1("zz", ys("x"))), ("condition".into(), ys(&cond))], docs.clone(), nmasks.clone());
+                    let (ex, parsed) = run_rule_case(ctx, &cs, false);
+                    let ry = rule_yaml(&cs);
+                    let p = match parsed {
+                        Some(p) if p.load == "ok" => p,
+                        _ => continue,
+                    };
+                    'masks: for mask in &nmasks {
+                        let res = tri_of(&p, *mask);
+                        for (j, fv) in field_vals.iter().enumerate() {
+                            let rel = if kind == "int" {
+                                int_cast(fv).map(|v| holds(op, cmp_exact(&NumV::I(v), &NumV::I(c.parse::<i128>().unwrap())))).unwrap_or(false)
+                            } else {
+                                flt_cast(fv).map(|v| holds(op, v.partial_cmp(&c.parse::<f64>().unwrap()))).unwrap_or(false)
+                            };
+                            let want = if form == 1 || form == 3 { !rel } else { rel };
+                            ctx.nontrivial.insert(hash_str(&format!("neg{}{:?}", cond, fv)));
+                            if (res[j] == "T") != want {
+                                ctx.violation("oracle", &format!("`{}` (mask {}) gives {} for f = {:?}, expected {}", cond, mask, res[j], fv, want), &ex, &ry, true);
+                                break 'masks;
+                            }
+                        }
+                        // the absent field: neither the comparison nor its negation holds
+                        if res[field_vals.len()] == "T" {
+                            ctx.violation("oracle", &format!("`{}` (mask {}) holds on a document without the field", cond, mask), &ex, &ry, true);
+                            break 'masks;
+                        }
+                    }
+                }
+            }
+        }
+    }
     // (3) str(): the canonical decimal text
     let texts = ["5", "-1", "2.5", "true", "false", "1", "0.5", "18446744073709551615", "inf", "NaN", "1000", "0", "-0"];
     for t in texts {
@@ -1659,6 +1775,107 @@ pub fn run_c10(ctx: &mut Ctx, _known: &Known) {
             if ex.imp != want {
                 ctx.violation("oracle", &format!("find({:?}) on {} gives {} but the addressed value is {}", key, serde_yaml::to_string(d).unwrap_or_default().replace('\n', " "), ex.imp, want), &ex, &key, true);
             }
+        }
+    }
+    // DEEP paths (up to 12 steps): every step is walked, none is looked up as the literal rest of the
+    // path — each level also holds keys NAMED like every rest of the path
+    {
+        let n = 12usize;
+        let mut level: Yaml = Yaml::Sequence(vec![ys("leaf0"), map1("z", ys("leaf1"))]);
+        for i in (0..n).rev() {
+            let mut m = Mapping::new();
+            m.insert(ys(&format!("c{}", i)), level.clone());
+            for e in (i + 1)..n {
+                let lit: Vec<String> = (i..=e).map(|j| format!("c{}", j)).collect();
+                m.insert(ys(&lit.join(".")), ys(&format!("literal-{}-{}", i, e)));
+            }
+            m.insert(ys(&format!("c{}[0]", i)), ys("literal-index"));
+            level = Yaml::Mapping(m);
+        }
+        let deep_doc = level;
+        for len in 1..=n {
+            for tail in 0..4 {
+                let mut path: Vec<(String, Option<usize>)> = (0..len).map(|j| (format!("c{}", j), None)).collect();
+                match tail {
+                    1 => { path[len - 1].1 = Some(0); }
+                    2 => { path[len - 1].1 = Some(1); path.push(("z".into(), None)); }
+                    3 => { path.push(("nope".into(), None)); }
+                    _ => {}
+                }
+                let key = render(&path);
+                let line = format!("find {} {}", sx::doc_sx(&deep_doc), sx::enc(&key));
+                let ex = ctx.exchange(&line);
+                ctx.check_agree(&ex, &key);
+                let want = match resolve(&deep_doc, &path) {
+                    Some(v) => value_repr(&v),
+                    None => "none".to_string(),
+                };
+                ctx.nontrivial.insert(hash_str(&line));
+                if ex.imp != want {
+                    ctx.violation("oracle", &format!("find({:?}) on a document nested {} levels deep gives {} but the addressed value is {}", key, n, trunc(&ex.imp, 200), trunc(&want, 200)), &ex, &key, true);
+                }
+            }
+        }
+        // the same paths as rule keys, against the nested-mapping spelling of the rule
+        for len in [2usize, 7, 8, 9, 10, 12] {
+            let segs: Vec<String> = (0..len).map(|j| format!("c{}", j)).collect();
+            let dotted = map1(&format!("{}[0]", segs.join(".")), ys("leaf0"));
+            let mut nested: Yaml = map1(&format!("{}[0]", segs[len - 1]), ys("leaf0"));
+            for j in (0..len - 1).rev() {
+                nested = map1(&segs[j], nested);
+            }
+            let mut verdicts: Vec<Vec<Vec<bool>>> = vec![];
+            let mut last = None;
+            for body in [dotted, nested] {
+                let c = case(vec![("A".into(), body), ("condition".into(), ys("A"))], vec![deep_doc.clone()], vec![0, 15]);
+                let (ex, parsed) = run_rule_case(ctx, &c, false);
+                if let Some(p) = parsed {
+                    if p.load == "ok" {
+                        verdicts.push([0u64, 15].iter().map(|m| tri_of(&p, *m).iter().map(|t| t == "T").collect()).collect());
+                        last = Some((ex, rule_yaml(&c)));
+                    }
+                }
+            }
+            if let Some((ex, ry)) = last {
+                let want = len == n; // the array sits under the last of the 12 names only
+                if verdicts.iter().any(|v| v.iter().any(|m| m[0] != want)) {
+                    ctx.violation("oracle", &format!("a path of {} steps ending in [0]: dotted and nested spellings give {:?}, the addressed value {} leaf0", len, verdicts, if want { "is" } else { "is not" }), &ex, &ry, true);
+                }
+            }
+        }
+    }
+    // WIDE matrices: an or-group over more than 128 distinct paths (one of them used twice, so that
+    // the matrix pass builds a table); a document is matched through the column of ITS field
+    for n in [129usize, 150, 200, 260] {
+        let mut rows: Vec<Yaml> = (0..n).map(|i| map1(&format!("ev.f{:03}", i), Yaml::Number(1u64.into()))).collect();
+        rows.push(mapn(vec![("ev.f000".into(), Yaml::Number(2u64.into())), ("ev.g".into(), Yaml::Number(2u64.into()))]));
+        let mk = |kvs: &[(usize, u64)]| -> Yaml {
+            let mut m = Mapping::new();
+            for (i, v) in kvs { m.insert(ys(&format!("f{:03}", i)), Yaml::Number((*v).into())); }
+            map1("ev", Yaml::Mapping(m))
+        };
+        let hi = n - 1;
+        let wdocs: Vec<(Yaml, bool)> = vec![
+            (mk(&[(hi, 1)]), true), (mk(&[(128, 1)]), true), (mk(&[(128, 7)]), false), (mk(&[(128, 7), (if hi > 128 { hi.min(195) } else { 127 }, 1)]), true),
+            (mk(&[(5, 1)]), true), (mk(&[(5, 3), (127, 1)]), true), (mk(&[(hi, 3)]), false), (mk(&[]), false),
+        ];
+        let c = case(vec![("X".into(), Yaml::Sequence(rows)), ("condition".into(), ys("X"))], wdocs.iter().map(|d| d.0.clone()).collect(), vec![0, 8, 15]);
+        let (ex, parsed) = run_rule_case(ctx, &c, false);
+        if let Some(p) = parsed {
+            if p.load == "ok" {
+                ctx.nontrivial.insert(hash_str(&format!("wide{}", n)));
+                'wm: for mask in [0u64, 8, 15] {
+                    let res = tri_of(&p, mask);
+                    for (j, (_, want)) in wdocs.iter().enumerate() {
+                        if (res[j] == "T") != *want {
+                            ctx.violation("oracle", &format!("an or-group over {} paths (mask {}): document {} gives {}, expected {}", n + 1, mask, j, res[j], want), &ex, &trunc(&rule_yaml(&c), 1500), true);
+                            break 'wm;
+                        }
+                    }
+                }
+            }
+        } else if ex.imp.contains("PANIC") {
+            ctx.violation("oracle", &format!("an or-group over {} paths panics: {}", n + 1, trunc(&ex.imp, 200)), &ex, &trunc(&rule_yaml(&c), 1500), true);
         }
     }
     // top-level fields whose NAME looks like a path: a path is still resolved step by step, in every
@@ -2332,8 +2549,59 @@ fn c17_fixed(ctx: &mut Ctx) {
     }
 }
 
+/// (b') the entries of ONE mapping in every order, where two entries read the same field through
+///      different key forms (`a` and `str(a)`, `a` and `int(a)`), alone and as a row next to others
+fn c17_rows_one_field(ctx: &mut Ctx) {
+    let docs: Vec<Yaml> = [ys("xy"), ys("xz"), ys("qz"), ys("zz"), ys("x"), Yaml::Number(7u64.into()), Yaml::Number(12u64.into()), Yaml::Number(3u64.into()), ys("7")].into_iter().map(|v| map1("a", v)).chain(std::iter::once(mapn(vec![("b".into(), ys("1"))]))).collect();
+    let entry_sets: Vec<Vec<(&str, Yaml)>> = vec![
+        vec![("a", ys("x*")), ("str(a)", ys("*z"))],
+        vec![("a", ys("x*")), ("str(a)", ys("*z")), ("b", ys("1"))],
+        vec![("a", ys(">5")), ("int(a)", ys("<10"))],
+        vec![("a", ys(">5")), ("flt(a)", ys("<10")), ("int(a)", ys(">6"))],
+        vec![("a", ys("?^x")), ("str(a)", ys("?z$")), ("not(a)", ys("xqz"))],
+    ];
+    let others: Vec<Yaml> = vec![map1("a", ys("zz")), mapn(vec![("a".into(), ys("3")), ("b".into(), ys("1"))])];
+    let masks = vec![0u64, 15, 14, 10, 8, 12];
+    for set in &entry_sets {
+        for shape in 0..3 {
+            let mut base: Option<Vec<Vec<bool>>> = None;
+            for perm in permutations(&(0..set.len()).collect::<Vec<_>>()) {
+                let row = mapn(perm.iter().map(|&j| (set[j].0.to_string(), set[j].1.clone())).collect());
+                let body = match shape {
+                    0 => row.clone(),
+                    1 => Yaml::Sequence(vec![row.clone(), others[0].clone()]),
+                    _ => Yaml::Sequence(vec![others[1].clone(), row.clone(), others[0].clone()]),
+                };
+                let c = case(vec![("A".into(), body), ("condition".into(), ys("A"))], docs.clone(), masks.clone());
+                let (ex, parsed) = run_rule_case(ctx, &c, false);
+                let p = match parsed {
+                    Some(p) if p.load == "ok" => p,
+                    _ => break,
+                };
+                ctx.nontrivial.insert(hash_str(&ex.line));
+                let got: Vec<Vec<bool>> = masks.iter().map(|m| tri_of(&p, *m).iter().map(|t| t == "T").collect()).collect();
+                // every mask must also agree with the plain rule: a conjunction is true iff all its entries are
+                if let Some(w) = (1..masks.len()).find(|i| got[*i] != got[0]) {
+                    ctx.violation("oracle", &format!("a mapping with two entries on one field: the optimised rule (mask {}) is true on other documents than the plain rule", masks[w]), &ex, &rule_yaml(&c), true);
+                    break;
+                }
+                match &base {
+                    None => base = Some(got),
+                    Some(b) => {
+                        if *b != got {
+                            ctx.violation("oracle", "reordering the entries of a mapping that reads one field through two key forms changes a verdict", &ex, &rule_yaml(&c), true);
+                            break;
+                        }
+                    }
+                }
+            }
+        }
+    }
+}
+
 pub fn run_c17(ctx: &mut Ctx, _known: &Known) {
     c17_fixed(ctx);
+    c17_rows_one_field(ctx);
     let n = budget(ctx, 250, 6000);
     let masks = vec![0u64, 15];
     for i in 0..n {
